@@ -464,7 +464,9 @@ class BitmapInterp(Interp):
         return self.NOT_HANDLED
 
     def on_call(self, text, callee, args, kwargs, node, frame):
-        if text == 'state.build_bitmapped_descriptors':
+        from sa.patheval import FuncRef as _FR
+        if text == 'state.build_bitmapped_descriptors' or (isinstance(callee, _FR) and callee.fi.name == 'build_bitmapped_descriptors'):
+            # (recognised by what the call resolves to: the state method may be reached through a helper of the state)
             self.event('build', args[0] if args else None)
             return None
         return self.NOT_HANDLED
@@ -480,35 +482,59 @@ def _n(v):
 
 
 def rule_r6(repo):
+    """define_bitmap of both coders folded on a real coder state with three subsets that hold different values (uncompressed: switched to
+    the second subset; compressed: one walk for all): the bits handed to build_bitmapped_descriptors - recognised by what the call
+    resolves to, however it is reached - are the last n_031031 values just decoded (decoder) / just consumed (encoder) *of the subset
+    being processed* (of subset 0, which stands for all, when compressed); a bitmap for reuse is stored, any other leaves the stored
+    one alone."""
+    from sa.rules.walk import fold_init
     rr = RuleResult('C07.R6', 'define_bitmap takes the last n_031031 values of the subset being processed (subset 0 only when compressed)')
+    rows = [[5, 1, 0, 1, 7, 9], [6, 0, 1, 1, 8, 9], [7, 1, 1, 0, 9, 9]]
     for coder in ('Decoder', 'Encoder'):
         fi = repo.method(coder, 'define_bitmap')
         for comp in (True, False):
             for reuse in (True, False):
                 it = BitmapInterp(repo, coder)
-                res = it.run_function(fi, lambda: {'self': Obj(coder, {}), 'reuse': reuse,
-                                                   'state': Obj('CoderState', {'is_compressed': comp, 'n_031031': Sym('N'), 'idx_value': Sym('IDX'),
-                                                                               'decoded_values': Sym('VALUES_CUR'),
-                                                                               'decoded_values_all_subsets': Sym('VALUES_ALL'), 'bitmap': Sym('OLD')})},
-                                      self_class=coder)
+                box = {}
+
+                def mk():
+                    if coder == 'Decoder':
+                        sts = fold_init(repo, comp, 3)
+                    else:
+                        sts = fold_init(repo, comp, 3, values=[list(r) for r in rows])
+                    st = ([x for x in sts if isinstance(x.fields.get('decoded_values_all_subsets'), list) and
+                           all(type(v) is list for v in x.fields['decoded_values_all_subsets'])] or sts)[0]
+                    if not comp:
+                        sw = repo.own_method('CoderState', 'switch_subset_context')
+                        r0 = Interp(repo, 'CoderState').run_function(sw, lambda: {'self': st, sw.params[1]: 1}, self_class='CoderState')
+                        if len(r0) != 1 or not r0[0].ok:
+                            raise AnalysisError('switch_subset_context(1) could not be folded')
+                    if coder == 'Decoder':
+                        # what has been decoded so far: the first four values of each row (the last three are the 031031 bits)
+                        for k, row in enumerate(rows):
+                            lst = st.fields['decoded_values_all_subsets'][k]
+                            if comp or k <= 1:
+                                lst.extend(row[:4])
+                    st.fields['n_031031'] = 3
+                    st.fields['idx_value'] = 4
+                    st.fields['bitmap'] = 'OLD'
+                    box['st'] = st
+                    return {'self': Obj(coder, {}), 'reuse': reuse, 'state': st}
+                res = it.run_function(fi, mk, self_class=coder)
                 rr.instance('%s.define_bitmap(compressed=%s, reuse=%s)' % (coder, comp, reuse))
-                src = 'item(VALUES_ALL,0)' if comp else 'VALUES_CUR'
-                if coder == 'Decoder':
-                    want = 'slice(%s,neg(N),None)' % src
-                else:
-                    want = 'slice(%s,sub(IDX,N),IDX)' % src
+                want = rows[0 if comp else 1][1:4]
                 for r in res:
                     b = [e[1] for e in r.events if e[0] == 'build']
-                    st = dict((e[1], repr(e[2])) for e in r.events if e[0] == 'store')
-                    if not r.ok or len(b) != 1 or repr(b[0]) != want:
+                    if not r.ok or len(b) != 1 or b[0] != want:
                         rr.fail('%s.define_bitmap:source' % coder, fi.where,
-                                'compressed=%s: the bitmap is %s; expected %s (the bits just %s for %s)' % (
-                                    comp, [repr(x) for x in b] or r.describe(), want, 'decoded' if coder == 'Decoder' else 'consumed',
-                                    'subset 0 = all subsets' if comp else 'the current subset'), witness={'compressed': comp})
-                    if reuse and st.get('bitmap') != want:
-                        rr.fail('%s.define_bitmap:reuse' % coder, fi.where, 'a bitmap defined for reuse is stored as %s' % st.get('bitmap'))
-                    if not reuse and 'bitmap' in st:
-                        rr.fail('%s.define_bitmap:reuse' % coder, fi.where, 'a bitmap not defined for reuse overwrites the stored bitmap')
+                                'compressed=%s, three subsets with the bits %s: the bitmap built is %s; expected %s (the bits just %s for %s)' % (
+                                    comp, [x[1:4] for x in rows], b or r.describe(), want, 'decoded' if coder == 'Decoder' else 'consumed',
+                                    'subset 0 = all subsets' if comp else 'the subset being processed, the second one'), witness={'compressed': comp})
+                    stored = box['st'].fields.get('bitmap')
+                    if r.ok and reuse and stored != want:
+                        rr.fail('%s.define_bitmap:reuse' % coder, fi.where, 'a bitmap defined for reuse is stored as %r (expected %r)' % (stored, want))
+                    if r.ok and not reuse and stored != 'OLD':
+                        rr.fail('%s.define_bitmap:reuse' % coder, fi.where, 'a bitmap not defined for reuse overwrites the stored bitmap (%r)' % (stored,))
     rr.require_floor(8)
     return rr
 
